@@ -412,6 +412,52 @@ def random_scenario(rng):
     return Sc(role, opts, ops, 'random')
 
 
+# ---------------------------------------------------------------- hostile field sections, deterministically
+
+INT_EXTREMES = [2 ** 31 - 1, 2 ** 31, 2 ** 32 - 1, 2 ** 32, 2 ** 53, 2 ** 62 - 1, 2 ** 62, 2 ** 63 - 2, 2 ** 63 - 1, 2 ** 63, 2 ** 63 + 1,
+                2 ** 63 + 2, 2 ** 63 + 62, 2 ** 63 + 126, 2 ** 63 + 127, 2 ** 64 - 2, 2 ** 64 - 1, 2 ** 64]
+
+
+def hostile_sections():
+    """Every QPACK_BAD section, plus every integer position of a field section (Required Insert Count, Delta Base with
+    both signs, static / dynamic / post-base indices, name-reference indices, name and value lengths, plain and Huffman)
+    at the arithmetic extremes of the decoder's 64-bit range - an overflow needs one exact value (seeded C06-rt3)."""
+    out = list(QPACK_BAD)
+    tail = idx(17) + idx(1)
+    for v in INT_EXTREMES:
+        out.append(pint(8, 0, v) + b'\x00' + tail)                 # Required Insert Count
+        out.append(b'\x00' + pint(7, 0, v) + tail)                 # Delta Base, S = 0
+        out.append(b'\x00' + pint(7, 1, v) + tail)                 # Delta Base, S = 1 (negative base)
+        out.append(pint(8, 0, 1) + pint(7, 1, v) + tail)            # the same with a non-zero insert count
+        out.append(pint(8, 0, v) + pint(7, 1, v) + tail)
+        out.append(b'\x00\x00' + pint(6, 3, v))                    # indexed, static
+        out.append(b'\x00\x00' + pint(6, 2, v))                    # indexed, dynamic
+        out.append(b'\x00\x00' + pint(4, 1, v))                    # indexed, post-base
+        out.append(b'\x00\x00' + pint(4, 5, v) + b'\x01a')         # literal with static name reference
+        out.append(b'\x00\x00' + pint(4, 4, v) + b'\x01a')         # literal with dynamic name reference
+        out.append(b'\x00\x00' + pint(3, 0, v) + b'\x01a')         # literal with post-base name reference
+        out.append(b'\x00\x00' + pint(3, 4, v) + b'a')             # literal name length, plain
+        out.append(b'\x00\x00' + pint(3, 5, v) + b'a')             # literal name length, Huffman
+        out.append(b'\x00\x00\x51' + pint(7, 0, v) + b'a')         # value length, plain
+        out.append(b'\x00\x00\x51' + pint(7, 1, v) + b'a')         # value length, Huffman
+    return out
+
+
+def hostile_section_cases(rng):
+    out = []
+    srv_ctl = [('U', 2), d(2, b'\x00', SETTINGS_EMPTY)]
+    cli_ctl = [('U', 3), d(3, b'\x00', SETTINGS_EMPTY)]
+    for sec in hostile_sections():
+        scs = [Sc('srv', 'pa', srv_ctl + [('B', 0), d(0, frame(H_HEADERS, sec)), ('F', 0)], 'hostile-req'),
+               Sc('srv', 'pa', srv_ctl + [('B', 0), d(0, frame(H_HEADERS, REQ_POST), frame(H_DATA, b'ab'), frame(H_HEADERS, sec)), ('F', 0)], 'hostile-req-trailers'),
+               Sc('cli', 'pa', cli_ctl + [d(0, frame(H_HEADERS, sec)), ('F', 0)], 'hostile-resp'),
+               Sc('cli', 'pa+b', cli_ctl + [d(0, frame(H_HEADERS, RESP_200), frame(H_DATA, b'ab'), frame(H_HEADERS, sec)), ('F', 0)], 'hostile-resp-trailers')]
+        for sc in scs:
+            out.append(line(sc.role, sc.opts, events_of(sc, 'one', rng), 'each', rng, 'hostile'))
+    return out
+
+
+
 def big_cases(tier='quick'):
     out = []
     for n in (24576, 24577, 32768, 40000):
@@ -727,6 +773,8 @@ class P(Property):
             out.append(line(sc.role, sc.opts, evs, rng.choice(['each', 'end', 'rand']), rng, 'rnd'))
         # 5. large inputs
         out += big_cases(tier)
+        # 5b. every hostile field section / integer extreme, in request, response and trailer position
+        out += hostile_section_cases(rng)
         # 6. valid Huffman literals (every length 1..64, every padding length, long codes)
         out += huffman_cases(rng, 40 if quick else 20000)
         # 7. back-pressure: credit withheld and granted piecemeal, faults while a write is pending
